@@ -110,6 +110,8 @@ def gen_actor(st, idx, small):
                     poison[f"DE{b}"] = "Z" * cfgd[str(b)]["field_length"]   # fields encoded before the failure
                 w["messages"].insert(kn.randint(0, len(w["messages"])), poison)
                 w["poisoned"] = True
+        if kn.random() < 0.3:
+            w["write_many"] = kn.choice([2, 3, 5])      # items handed over in chunks through write_many
         return w
     spec = {"role": "reader", "cls": rcls, "blocked": w["blocked"], "encoding": w.get("encoding"),
             "config": w.get("config", "packaged"), "image_from": w}
@@ -172,7 +174,10 @@ def gen_multi(seed_i, mode, tier):
         # number of ops per actor is known from the specs (writers: items + close; readers: records + 1)
         def nops(a):
             src = a if a["role"] == "writer" else a["image_from"]
-            return len(src.get("messages") or src.get("records") or []) + 2
+            k = len(src.get("messages") or src.get("records") or [])
+            if a["role"] == "writer" and a.get("write_many"):
+                k = -(-k // a["write_many"])
+            return k + 2
         total = sum(nops(a) for a in scn["actors"])
         pat = sc.choice(["uniform", "roundrobin", "bursty", "one_to_end"])
         order = []
@@ -329,6 +334,8 @@ def run_task(task):
                 c["probe:run_with_instances_sharing_one_config_object"] += 1
             if scn.get("de43_pair"):
                 c["probe:run_with_two_readers_differing_only_in_the_DE43_regex"] += 1
+            if any(a.get("write_many") for a in scn["actors"]):
+                c["probe:run_with_a_writer_using_write_many_chunks"] += 1
             if len(scn["actors"]) >= 17:
                 c["probe:run_with_17_or_more_instances"] += 1
             if any(a.get("poisoned") for a in scn["actors"]):
